@@ -16,7 +16,8 @@ def profile(draw, n_min=2, n_max=5, max_ballots=60):
     from oracles.irv_ref import irv_winners
 
     n = draw(st.integers(n_min, n_max))
-    cands = CANDS[:n]
+    # letters, or numeric identifiers that concatenate ambiguously ('1'+'2' == '12')
+    cands = (CANDS if draw(st.integers(0, 2)) else ["1", "12", "2", "21", "11", "112", "121"])[:n]
     shape = draw(st.sampled_from(["decisive", "decisive", "mixed", "tie", "tiny"]))
     ballots = []
     if shape == "tiny":
